@@ -113,9 +113,9 @@ Proof.
 Qed.
 
 Lemma verify_ok_fresh : forall nm ix perm,
-  covers perm ix -> verify_ok (Some (FGood nm (compact_entries ix perm))) ix = true.
+  covers perm ix -> verify_ok (PreFile (FGood nm (compact_entries ix perm))) ix = true.
 Proof.
-  intros nm ix perm Hc. unfold verify_ok, load_index.
+  intros nm ix perm Hc. unfold verify_ok, hyd_img, load_index.
   destruct (compact_preserves_index ix nm perm Hc) as [Hl _].
   destruct (load_entries nm (compact_entries ix perm)) as [lix lnm]. simpl in Hl.
   apply forallb_forall. intros p Hp. rewrite Hl.
@@ -131,8 +131,8 @@ Theorem migration_preserves : forall cfg perm folder order,
   v1_load files <> [] ->
   covers perm (v1_load files) ->
   exists hydf st,
-    migrate cfg perm false folder None =
-      (MS (if delete_old cfg then None else Some folder) (Some hydf), PSuccess) /\
+    migrate cfg perm false folder PreNone =
+      (MS (if delete_old cfg then None else Some folder) (PreFile hydf), PSuccess) /\
     load_index hydf = Some st /\
     (forall k, ilookup k (fst st) = ilookup k (v1_load order)) /\
     snd st = v1_meta folder.
@@ -144,7 +144,7 @@ Proof.
   rewrite Hv1 in Hne, Hcov.
   unfold migrate. fold files. rewrite (mig_load_clean files Hcl). fold ix.
   destruct ix as [|p0 ix0] eqn:Eix; [congruence|]. rewrite <- Eix in *.
-  rewrite Hdry. unfold write_v2. simpl open_temp. cbv iota beta.
+  rewrite Hdry. unfold write_v2. simpl open_target. cbv iota beta.
   unfold fappend. simpl app.
   rewrite (verify_ok_fresh (v1_meta folder) ix perm Hcov). rewrite andb_false_r.
   exists (FGood (v1_meta folder) (compact_entries ix perm)).
@@ -165,7 +165,7 @@ Theorem failure_leaves_v1_intact : forall cfg perm wf folder pre st ph,
   (m_v1 st = None -> delete_old cfg = true /\ dry_run cfg = false /\ (ph = PSuccess \/ ph = PSkippedEmpty)) /\
   (ph = PSuccess -> wf = false /\
      (verify cfg = true -> exists ix, mig_load (v1_files folder) = MLOk ix /\ verify_ok (m_hyd st) ix = true)) /\
-  (ph = PFailVerify -> m_hyd st = None) /\
+  (ph = PFailVerify -> m_hyd st = PreNone) /\
   (ph = PFailLoad \/ ph = PDryRun \/ ph = PSkippedEmpty -> m_hyd st = pre).
 Proof.
   intros [dr vf dl] perm wf folder pre st ph. unfold migrate. simpl.
@@ -178,11 +178,11 @@ Proof.
     + destruct dr.
       * intros E; inversion E; subst; simpl.
         repeat split; auto; try discriminate; intros [?|[?|?]]; reflexivity.
-      * unfold write_v2. destruct (open_temp (option_map NFile pre) (v1_meta folder)) as [f0|].
+      * unfold write_v2. destruct (open_target pre (v1_meta folder)) as [f0|].
         -- destruct wf.
            ++ intros E; inversion E; subst; simpl.
               repeat split; auto; try discriminate; intros [?|[?|?]]; discriminate.
-           ++ destruct (vf && negb (verify_ok (Some (fappend f0 (compact_entries (p0 :: ix0) perm))) (p0 :: ix0))) eqn:Ev.
+           ++ destruct (vf && negb (verify_ok (PreFile (fappend f0 (compact_entries (p0 :: ix0) perm))) (p0 :: ix0))) eqn:Ev.
               ** intros E; inversion E; subst; simpl.
                  repeat split; auto; try discriminate; intros [?|[?|?]]; discriminate.
               ** intros E; inversion E; subst; simpl.
@@ -197,7 +197,7 @@ Qed.
 (* ---- informational refutations -------------------------------------------------------------------- *)
 (* verify only checks key presence *)
 Theorem verify_is_weak :
-  exists hyd expected k, verify_ok (Some hyd) expected = true /\
+  exists hyd expected k, verify_ok (PreFile hyd) expected = true /\
     ilookup k expected = Some 10 /\
     option_map (fun st => ilookup k (fst st)) (load_index hyd) = Some (Some 99).
 Proof. exists (FGood 7 [E OSet 1 99]), [(1, 10)], 1. vm_compute. repeat split; reflexivity. Qed.
@@ -209,14 +209,37 @@ Definition ex_folder : v1folder := V1 [VF true (VSegs [SOk 1 10; SOk 3 30])] 7.
 
 Theorem preexisting_hyd_refuted :
   exists pre st,
-    migrate (CFG false true true) [1; 3] false ex_folder (Some pre) = (st, PSuccess) /\
+    migrate (CFG false true true) [1; 3] false ex_folder (PreFile pre) = (st, PSuccess) /\
     m_v1 st = None /\
     ilookup 2 (v1_load (v1_files ex_folder)) = None /\
-    option_map (fun s => (ilookup 2 (fst s), snd s)) (match m_hyd st with Some f => load_index f | None => None end)
+    option_map (fun s => (ilookup 2 (fst s), snd s)) (match hyd_img (m_hyd st) with Some f => load_index f | None => None end)
       = Some (Some 20, 9).
 Proof.
   exists (FGood 9 [E OSet 2 20]). eexists. split; [vm_compute; reflexivity|]. vm_compute. repeat split; reflexivity.
 Qed.
+
+(* a target file shorter than its header (interrupted creation) is created again: same result as
+   with nothing at the path *)
+Theorem short_target_harmless : forall cfg perm wf folder,
+  migrate cfg perm wf folder PreShort = migrate cfg perm wf folder PreNone \/
+  exists ph, (ph = PFailLoad \/ ph = PDryRun \/ ph = PSkippedEmpty) /\
+             snd (migrate cfg perm wf folder PreShort) = ph /\ snd (migrate cfg perm wf folder PreNone) = ph /\
+             m_v1 (fst (migrate cfg perm wf folder PreShort)) = m_v1 (fst (migrate cfg perm wf folder PreNone)) /\
+             m_hyd (fst (migrate cfg perm wf folder PreShort)) = PreShort.
+Proof.
+  intros [dr vf dl] perm wf folder. unfold migrate. simpl.
+  destruct (mig_load (v1_files folder)) as [|[|p0 ix0]].
+  - right. exists PFailLoad. simpl. auto 10.
+  - right. exists PSkippedEmpty. simpl. auto 10.
+  - destruct dr; [right; exists PDryRun; simpl; auto 10 | left; reflexivity].
+Qed.
+
+(* a target file with a complete but corrupt block stays unreadable after the append: without
+   --verify the migration reports success and --delete-old removes the only readable copy *)
+Theorem corrupt_target_refuted :
+  exists st, migrate (CFG false false true) [1; 3] false ex_folder (PreFile (FTorn 9 [])) = (st, PSuccess) /\
+             m_v1 st = None /\ (match hyd_img (m_hyd st) with Some f => load_index f | None => None end) = None.
+Proof. eexists. split; [vm_compute; reflexivity|]. vm_compute. split; reflexivity. Qed.
 
 (* the same key in two chunk files: the legacy Load itself depends on the map iteration order *)
 Theorem dup_refuted :
@@ -366,7 +389,7 @@ Theorem migration_preserves_v1_histories : forall ops cs cfg perm meta order,
   (forall f, In f order <-> In f (v1_files folder)) ->
   dry_run cfg = false -> v1_load (v1_files folder) <> [] -> covers perm (v1_load (v1_files folder)) ->
   exists hydf st,
-    migrate cfg perm false folder None = (MS (if delete_old cfg then None else Some folder) (Some hydf), PSuccess) /\
+    migrate cfg perm false folder PreNone = (MS (if delete_old cfg then None else Some folder) (PreFile hydf), PSuccess) /\
     load_index hydf = Some st /\
     (forall k, ilookup k (fst st) = ilookup k (v1_load order)) /\ snd st = meta.
 Proof.
@@ -382,6 +405,6 @@ Example v1_history_example :
 Proof. vm_compute; reflexivity. Qed.
 
 Example migrate_example :
-  migrate (CFG false true true) [3; 2; 1] false (V1 (map chunk_file [[(1, 11)]; [(3, 30); (2, 21)]]) 7) None
-  = (MS None (Some (FGood 7 [E OSet 3 30; E OSet 2 21; E OSet 1 11])), PSuccess).
+  migrate (CFG false true true) [3; 2; 1] false (V1 (map chunk_file [[(1, 11)]; [(3, 30); (2, 21)]]) 7) PreNone
+  = (MS None (PreFile (FGood 7 [E OSet 3 30; E OSet 2 21; E OSet 1 11])), PSuccess).
 Proof. vm_compute; reflexivity. Qed.
